@@ -330,7 +330,7 @@ func localCell(a *ssa.Alloc, captured bool) bool {
 		case *ssa.Call:
 			// multierr.AppendInto(&v, err) is modelled by the explorer as an assignment to v
 			sc := x.Call.StaticCallee()
-			if sc == nil || sc.String() != "go.uber.org/multierr.AppendInto" || x.Call.Args[0] != ssa.Value(a) {
+			if sc == nil || FStr(sc) != "go.uber.org/multierr.AppendInto" || x.Call.Args[0] != ssa.Value(a) {
 				return false
 			}
 		case *ssa.DebugRef:
@@ -486,7 +486,7 @@ func (st *ConcState) IsNil(v ssa.Value) (isNil, known bool) {
 	case *ssa.Call:
 		// error constructors and combinators whose nil-ness follows from their arguments
 		if sc := x.Call.StaticCallee(); sc != nil && !x.Call.IsInvoke() {
-			switch sc.String() {
+			switch FStr(sc) {
 			case "fmt.Errorf", "errors.New":
 				return false, true
 			case "go.uber.org/multierr.Append", "go.uber.org/multierr.Combine", "errors.Join":
@@ -744,7 +744,7 @@ func (c *ConcCfg) stackDepth() []int { return c.depth }
 
 func vkey(v ssa.Value) string {
 	if p := v.Parent(); p != nil {
-		return p.Name() + "." + v.Name()
+		return FNm(p) + "." + v.Name()
 	}
 	return v.Name()
 }
@@ -772,13 +772,13 @@ func ConcPaths(fn *ssa.Function, cfg ConcCfg) (seqs []string, truncated bool) {
 	key := func(blk *ssa.BasicBlock, stack []concFrame, ev []string, st *ConcState) string {
 		var sb strings.Builder
 		for _, f := range stack {
-			sb.WriteString(f.blk.Parent().Name())
+			sb.WriteString(FNm(f.blk.Parent()))
 			sb.WriteString(strconv.Itoa(f.blk.Index))
 			sb.WriteByte('.')
 			sb.WriteString(strconv.Itoa(f.idx))
 			sb.WriteByte('/')
 		}
-		sb.WriteString(blk.Parent().Name())
+		sb.WriteString(FNm(blk.Parent()))
 		sb.WriteString(strconv.Itoa(blk.Index))
 		sb.WriteByte('|')
 		sb.WriteString(strings.Join(ev, ";"))
@@ -1040,7 +1040,7 @@ func ConcPaths(fn *ssa.Function, cfg ConcCfg) (seqs []string, truncated bool) {
 		for k := idx; k < len(blk.Instrs); k++ {
 			in := blk.Instrs[k]
 			if ai, isCall := in.(*ssa.Call); isCall && len(ai.Call.Args) == 2 && !ai.Call.IsInvoke() {
-				if sc := ai.Call.StaticCallee(); sc != nil && sc.String() == "go.uber.org/multierr.AppendInto" {
+				if sc := ai.Call.StaticCallee(); sc != nil && FStr(sc) == "go.uber.org/multierr.AppendInto" {
 					// *into = multierr.Append(*into, err): the variable now holds this call's outcome, nil exactly
 					// when both were nil
 					if a := cellOf(st, ai.Call.Args[0]); a != nil {
@@ -1554,7 +1554,7 @@ func ConcPaths(fn *ssa.Function, cfg ConcCfg) (seqs []string, truncated bool) {
 						v = nx
 					}
 					if mi, isMI := v.(*ssa.MakeInterface); isMI && curProg != nil {
-						if m := curProg.SSA.LookupMethod(mi.X.Type(), x.Call.Method.Pkg(), x.Call.Method.Name()); m != nil && len(m.Blocks) > 0 && cfg.Devirt(m) {
+						if m := curProg.SSA.LookupMethod(mi.X.Type(), x.Call.Method.Pkg(), FNm(x.Call.Method)); m != nil && len(m.Blocks) > 0 && cfg.Devirt(m) {
 							h, devirtRecv = m, mi.X
 						}
 					}
@@ -2010,28 +2010,28 @@ func buildConstTables() {
 	written := map[*ssa.Global]int{}
 	var inits []*ssa.Function
 	curProg.EachRootFunc(func(fn *ssa.Function) {
-		if fn.Name() == "init" && fn.Synthetic != "" {
+		if FNm(fn) == "init" && fn.Synthetic != "" {
 			inits = append(inits, fn)
 		}
 		AllInstrs(fn, func(in ssa.Instruction) {
 			switch x := in.(type) {
 			case *ssa.Store:
 				if g, ok := x.Addr.(*ssa.Global); ok {
-					if !(fn.Name() == "init" && fn.Synthetic != "") {
+					if !(FNm(fn) == "init" && fn.Synthetic != "") {
 						written[g] += 100
 					} else {
 						written[g]++
 					}
 				}
 				if ia, ok := x.Addr.(*ssa.IndexAddr); ok {
-					if g, ok := ia.X.(*ssa.Global); ok && !(fn.Name() == "init" && fn.Synthetic != "") {
+					if g, ok := ia.X.(*ssa.Global); ok && !(FNm(fn) == "init" && fn.Synthetic != "") {
 						written[g] += 100
 					}
 				}
 			case *ssa.MapUpdate:
 				// an update of a map loaded from a global outside the initialiser
 				if ld, ok := x.Map.(*ssa.UnOp); ok {
-					if g, ok := ld.X.(*ssa.Global); ok && !(fn.Name() == "init" && fn.Synthetic != "") {
+					if g, ok := ld.X.(*ssa.Global); ok && !(FNm(fn) == "init" && fn.Synthetic != "") {
 						written[g] += 100
 					}
 				}
